@@ -88,6 +88,17 @@ def make_evaluator():
 _REF_CACHE: dict = {}
 
 
+def _first_cell(line: str) -> str:
+    """first cell of a physical line, read with the csv dialect of the library's own readers (the
+    writer is free to quote cells)"""
+    import csv
+    try:
+        row = next(csv.reader([line], delimiter="\t", lineterminator="\n"), [])
+    except csv.Error:
+        row = []
+    return row[0] if row else line.split("\t")[0]
+
+
 def reference_rows(names, workdir: Path):
     key = tuple(sorted(names))
     if key in _REF_CACHE:
@@ -105,7 +116,7 @@ def reference_rows(names, workdir: Path):
             agg.evaluate(p, r, n)
     lines = out.read_text().split("\n")
     header = lines[0]
-    rows = {ln.split("\t")[0]: ln for ln in lines[1:] if ln}
+    rows = {_first_cell(ln): ln for ln in lines[1:] if ln}
     for f in d.glob("*tmp*"):
         f.unlink()
     _REF_CACHE[key] = (header, rows)
@@ -555,7 +566,7 @@ def read_lines(path: Path, header: str, rows: dict, is_out: bool):
     tail = parts.pop()           # text after the last newline: a torn line if non-empty
     out = []
     for ln in parts:
-        first = ln.split("\t")[0]
+        first = _first_cell(ln)
         if is_out:
             if ln == header:
                 out.append("H")
